@@ -157,6 +157,14 @@ pub fn mutate_cbor(seed: &[u8], rng: &mut Rng, cap: usize, out: &mut Vec<(String
         if nf >= 48 { break; } nf += 1;
         for rep in [&[0x80u8][..], &[0xd9, 0x01, 0x02, 0x80], &[0xa0], &[0x9f, 0xff], &[0xd9, 0x01, 0x02, 0x9f, 0xff], &[0xbf, 0xff], &[0xf6]] { out.push(("empty-field".into(), splice(seed, h.off, h.end, rep))); }
     }
+    // every definite array / map announcing one item more (or one less) than it holds: a reader that does not compare the
+    // declared length with what it reads accepts these
+    let mut nl = 0;
+    for h in heads.iter().filter(|h| (h.major == 4 || h.major == 5) && h.ai != 31 && !h.inner) {
+        if nl >= 40 { break; } nl += 1;
+        out.push(("len-plus1".into(), splice(seed, h.off, h.off + h.hlen, &enc_min(h.major, h.arg + 1))));
+        if h.arg > 0 { out.push(("len-minus1".into(), splice(seed, h.off, h.off + h.hlen, &enc_min(h.major, h.arg - 1)))); }
+    }
     // a map structure with one more field (every small key) holding an empty collection, and the one-field maps themselves
     if heads[0].major == 5 && heads[0].ai != 31 && heads[0].end == n && n <= 400 {
         let h = &heads[0];
